@@ -128,6 +128,8 @@ pub fn model(op: Op, a: &Sc, b: Option<&Sc>) -> Expect {
         _ => Unconstrained("logic-on-number"),
       }
     }
+    (Sc::R(_, d1), _) if *d1 == 0 => Unconstrained("zero-denominator"),
+    (_, Some(Sc::R(_, d2))) if *d2 == 0 => Unconstrained("zero-denominator"),
     (Sc::R(n1, d1), _) => {
       use num_rational::Ratio;
       let x = Ratio::new(BigInt::from(*n1), BigInt::from(*d1));
